@@ -5,6 +5,8 @@ import (
 
 	"github.com/ElrondNetwork/elrond-go/core"
 	"github.com/ElrondNetwork/elrond-go/core/throttler"
+	"github.com/ElrondNetwork/elrond-go/data/batch"
+	"github.com/ElrondNetwork/elrond-go/debug/resolver"
 	"github.com/ElrondNetwork/elrond-go/p2p"
 	"github.com/ElrondNetwork/elrond-go/process"
 )
@@ -43,18 +45,18 @@ func (verifAntiflood) CanProcessMessage(message p2p.MessageP2P, fromConnectedPee
 func (verifAntiflood) CanProcessMessagesOnTopic(pid core.PeerID, topic string, numMessages uint32, totalSize uint64, sequence []byte) error {
 	return nil
 }
-func (verifAntiflood) ApplyConsensusSize(size int)                                        {}
-func (verifAntiflood) SetDebugger(debugger process.AntifloodDebugger) error               { return nil }
+func (verifAntiflood) ApplyConsensusSize(size int)                                           {}
+func (verifAntiflood) SetDebugger(debugger process.AntifloodDebugger) error                  { return nil }
 func (verifAntiflood) BlacklistPeer(peer core.PeerID, reason string, duration time.Duration) {}
-func (verifAntiflood) IsOriginatorEligibleForTopic(pid core.PeerID, topic string) error   { return nil }
-func (verifAntiflood) IsInterfaceNil() bool                                               { return false }
-func (verifAntiflood) Close() error                                                       { return nil }
+func (verifAntiflood) IsOriginatorEligibleForTopic(pid core.PeerID, topic string) error      { return nil }
+func (verifAntiflood) IsInterfaceNil() bool                                                  { return false }
+func (verifAntiflood) Close() error                                                          { return nil }
 
 type verifNoPreferred struct{}
 
 func (verifNoPreferred) Get() map[uint32][]core.PeerID { return nil }
-func (verifNoPreferred) Contains(core.PeerID) bool      { return false }
-func (verifNoPreferred) IsInterfaceNil() bool           { return false }
+func (verifNoPreferred) Contains(core.PeerID) bool     { return false }
+func (verifNoPreferred) IsInterfaceNil() bool          { return false }
 
 type verifMsg struct{}
 
@@ -94,5 +96,146 @@ func Verif_C43_interceptor() {
 		verifGo(handler)
 	}
 	verifJoin()
+	verifReach("end")
+}
+
+// ---- balance of StartProcessing / EndProcessing on every path of the interceptors ---------------
+
+type verifCountingThrottler struct {
+	real         process.InterceptorThrottler
+	starts, ends int
+}
+
+func (t *verifCountingThrottler) CanProcess() bool     { return t.real.CanProcess() }
+func (t *verifCountingThrottler) StartProcessing()     { t.starts++; t.real.StartProcessing() }
+func (t *verifCountingThrottler) EndProcessing()       { t.ends++; t.real.EndProcessing() }
+func (t *verifCountingThrottler) IsInterfaceNil() bool { return t == nil }
+
+// antiflood handler whose answers are symbolic choices
+type verifSymAntiflood struct{ verifAntiflood }
+
+func (verifSymAntiflood) CanProcessMessage(message p2p.MessageP2P, fromConnectedPeer core.PeerID) error {
+	if verifBool("floodMessage") {
+		return process.ErrSystemBusy
+	}
+	return nil
+}
+func (verifSymAntiflood) CanProcessMessagesOnTopic(pid core.PeerID, topic string, numMessages uint32, totalSize uint64, sequence []byte) error {
+	if verifBool("floodTopic") {
+		return process.ErrSystemBusy
+	}
+	return nil
+}
+func (verifSymAntiflood) IsOriginatorEligibleForTopic(pid core.PeerID, topic string) error {
+	if verifBool("originatorNotEligible") {
+		return process.ErrOnlyValidatorsCanUseThisTopic
+	}
+	return nil
+}
+
+type verifInterceptedData struct{ validity int }
+
+func (d *verifInterceptedData) CheckValidity() error {
+	switch d.validity {
+	case 1:
+		return process.ErrInvalidTransactionVersion
+	case 2:
+		return process.ErrInvalidChainID
+	case 3:
+		return process.ErrNilTransaction
+	}
+	return nil
+}
+func (d *verifInterceptedData) IsForCurrentShard() bool { return verifBool("forCurrentShard") }
+func (d *verifInterceptedData) IsInterfaceNil() bool    { return d == nil }
+func (d *verifInterceptedData) Hash() []byte            { return []byte("hash") }
+func (d *verifInterceptedData) Type() string            { return "t" }
+func (d *verifInterceptedData) Identifiers() [][]byte   { return nil }
+func (d *verifInterceptedData) String() string          { return "d" }
+
+type verifDataFactory struct{}
+
+func (verifDataFactory) Create(buff []byte) (process.InterceptedData, error) {
+	if verifBool("createFails") {
+		return nil, process.ErrNilDataToProcess
+	}
+	return &verifInterceptedData{validity: verifChoice("validity", 4)}, nil
+}
+func (verifDataFactory) IsInterfaceNil() bool { return false }
+
+type verifWhiteList struct{}
+
+func (verifWhiteList) Remove(keys [][]byte) {}
+func (verifWhiteList) Add(keys [][]byte)    {}
+func (verifWhiteList) IsWhiteListed(interceptedData process.InterceptedData) bool {
+	return verifBool("whiteListed")
+}
+func (verifWhiteList) IsWhiteListedAtLeastOne(identifiers [][]byte) bool { return false }
+func (verifWhiteList) IsInterfaceNil() bool                              { return false }
+
+type verifProcessor struct{}
+
+func (verifProcessor) Validate(data process.InterceptedData, fromConnectedPeer core.PeerID) error {
+	if verifBool("validateFails") {
+		return process.ErrNilTransaction
+	}
+	return nil
+}
+func (verifProcessor) Save(data process.InterceptedData, fromConnectedPeer core.PeerID, topic string) error {
+	return nil
+}
+func (verifProcessor) RegisterHandler(handler func(topic string, hash []byte, data interface{})) {}
+func (verifProcessor) IsInterfaceNil() bool                                                      { return false }
+
+type verifBatchMarshalizer struct{}
+
+func (verifBatchMarshalizer) Marshal(obj interface{}) ([]byte, error) { return []byte("b"), nil }
+func (verifBatchMarshalizer) Unmarshal(obj interface{}, buff []byte) error {
+	if verifBool("unmarshalFails") {
+		return process.ErrNilDataToProcess
+	}
+	b := obj.(*batch.Batch)
+	n := verifChoice("batchItems", 3)
+	for i := 0; i < n; i++ {
+		b.Data = append(b.Data, []byte{byte(i)})
+	}
+	return nil
+}
+func (verifBatchMarshalizer) IsInterfaceNil() bool { return false }
+
+type verifChunks struct{}
+
+func (verifChunks) CheckBatch(b *batch.Batch, whiteListHandler process.WhiteListHandler) (process.CheckedChunkResult, error) {
+	if verifBool("chunkCheckFails") {
+		return process.CheckedChunkResult{}, process.ErrNilDataToProcess
+	}
+	return process.CheckedChunkResult{IsChunk: verifBool("isChunk"), HaveAllChunks: verifBool("haveAllChunks"), CompleteBuffer: []byte("c")}, nil
+}
+func (verifChunks) Close() error         { return nil }
+func (verifChunks) IsInterfaceNil() bool { return false }
+
+// Every path through ProcessReceivedMessage of both interceptors (all environment answers symbolic):
+// the task counter of the throttler is back where it was once the message is handled, i.e. every
+// StartProcessing is matched by exactly one EndProcessing.
+func Verif_C43_balancedStartEnd() {
+	real, _ := throttler.NewNumGoRoutinesThrottler(5)
+	th := &verifCountingThrottler{real: real}
+	base := &baseDataInterceptor{throttler: th, antifloodHandler: verifSymAntiflood{}, topic: "t", currentPeerId: "self",
+		preferredPeersHolder: verifNoPreferred{}, processor: verifProcessor{}, debugHandler: resolver.NewDisabledInterceptorResolver()}
+	var err error
+	if verifBool("multiData") {
+		mdi := &MultiDataInterceptor{baseDataInterceptor: base, marshalizer: verifBatchMarshalizer{}, factory: verifDataFactory{}, whiteListRequest: verifWhiteList{}, chunksProcessor: verifChunks{}}
+		err = mdi.ProcessReceivedMessage(verifMsg{}, "other")
+	} else {
+		sdi := &SingleDataInterceptor{baseDataInterceptor: base, factory: verifDataFactory{}, whiteListRequest: verifWhiteList{}}
+		err = sdi.ProcessReceivedMessage(verifMsg{}, "other")
+	}
+	_ = err
+	// let the processing goroutine started by an accepted message run to completion
+	for i := 0; i < 200 && th.starts != th.ends; i++ {
+		time.Sleep(5 * time.Millisecond)
+	}
+	verifAssert(th.starts == th.ends, "every StartProcessing is matched by exactly one EndProcessing")
+	verifAssert(real.CanProcess(), "the throttler is not left occupied")
 	verifReach("end")
 }
